@@ -97,7 +97,7 @@ func checkC15(run *Run, res *Result) {
 	}
 	// faults that precede opening: the consumer saw nothing and no stream was requested
 	switch fault {
-	case "ckpt-above-high", "load-error", "load-silent", "seqnos-error", "bad-membership", "bad-metadata":
+	case "ckpt-above-high", "load-error", "load-silent", "seqnos-error", "bad-membership", "bad-metadata", "file-read-error":
 		if consumed > 0 || sreqs > 0 {
 			res.violate("C15", "R4-streamed-before-refusing", len(run.Evs), fault,
 				"start-up fault %q precedes opening, yet %d stream request(s) were sent and %d event(s) delivered before the client terminated", fault, sreqs, consumed)
